@@ -43,8 +43,10 @@ var regUrls = []string{"U0", "U1", "U2", "U3"}
 var regKeys = []string{"p1", "p2"}
 
 type regHandle struct {
-	b *rosmar.Bucket
-	c sgbucket.DataStore
+	b    *rosmar.Bucket
+	c    sgbucket.DataStore
+	name int
+	inst int // which registration of the bucket name this handle was opened on
 }
 
 var regSerial int64
@@ -81,7 +83,7 @@ func execReg(in regInput, scratch string) (Case, error) {
 	var opTerms, obsTerms []any
 	cells := map[string]bool{}
 	done := make(chan error, 1)
-	var fatal string
+	var fatal, discard string
 	go func() {
 		defer func() {
 			if r := recover(); r != nil {
@@ -89,24 +91,49 @@ func execReg(in regInput, scratch string) (Case, error) {
 				done <- nil
 			}
 		}()
+		// The theorems and the model speak about histories in which no Close / CloseAndDelete goes through a
+		// stale handle: one whose bucket was deleted (or fully closed) and whose NAME has been registered again
+		// since - unregisterBucket is keyed by name and would release the new bucket's reference (op_ok in
+		// RegProofs.v).  The generator avoids them but cannot know which opens succeed; a history that gets
+		// there is cut at that point.
+		instOf := map[int]int{}
+		registered := func(name int) bool {
+			for _, n := range rosmar.GetBucketNames() {
+				if n == realName(name) {
+					return true
+				}
+			}
+			return false
+		}
+		stale := func(h int) bool {
+			return h < len(handles) && registered(handles[h].name) && handles[h].inst != instOf[handles[h].name]
+		}
 		doOpen := func(op regOp) Term {
 			mode := map[string]rosmar.OpenMode{"CreateOrOpen": rosmar.CreateOrOpen, "CreateNew": rosmar.CreateNew, "ReOpenExisting": rosmar.ReOpenExisting}[op.Mode]
 			url := rosmar.InMemoryURL
 			if !op.Mem {
 				url = "rosmar://" + filepath.Join(dir, regUrls[op.Url])
 			}
+			wasRegistered := registered(op.Name)
 			b, e := rosmar.OpenBucket(url, realName(op.Name), mode)
 			if e != nil {
 				cells["open|"+op.Mode+"|"+regErr(e, op.Mode)] = true
 				return C("RRErr", C(regErr(e, op.Mode)))
 			}
+			if !wasRegistered {
+				instOf[op.Name]++ // a new registration of this name
+			}
 			ds := b.DefaultDataStore()
-			handles = append(handles, regHandle{b, ds})
+			handles = append(handles, regHandle{b, ds, op.Name, instOf[op.Name]})
 			cells[fmt.Sprintf("open|%s|mem=%v|ok", op.Mode, op.Mem)] = true
 			return C("RROpened", N(uint64(len(handles)-1)))
 		}
-		for _, op := range in.Ops {
+		for i, op := range in.Ops {
 			var opT, respT Term
+			if (op.Kind == "close" || op.Kind == "cad") && stale(op.H) {
+				discard = fmt.Sprintf("op %d closes a stale handle of a bucket name that has been registered again (outside op_ok)", i)
+				break
+			}
 			switch op.Kind {
 			case "open":
 				opT = C("ROpen", B(op.Mem), S(regUrls[op.Url]), S(regNames[op.Name]), C(op.Mode))
@@ -215,6 +242,9 @@ func execReg(in regInput, scratch string) (Case, error) {
 		fatal = "blocked for 20s"
 	}
 	c.Fatal = fatal
+	if discard != "" {
+		c.Notes = append(c.Notes, "truncated: "+discard)
+	}
 	c.CoqInput = C("mkRcase", strsTerm(regKeys), strsTerm(regUrls), L(opTerms...))
 	c.CoqObs = L(obsTerms...)
 	for k := range cells {
